@@ -21,6 +21,9 @@ import Model.Util
     (`ippoAdvFlatten0`, row `t*(A*E) + a*E + e`) and are
     `reshape(T, A, -1).transpose(0, 1).reshape(-1)` of the `(T, A*E)` matrix after it
     (`ippoAdvFlatten`).
+  * `ppoUnflat` / `ippoUnflat` go from a training row back to the sample it holds (the index maps that
+    `harness/py2lean_flatten.py` derives from the source, `Proofs/FlattenGenEq.lean`); `gather` is the
+    minibatch indexing of `get_experiences_samples`.
 -/
 namespace GAE
 
@@ -167,6 +170,18 @@ def ippoCols {α} (A E : Nat) (f : Nat → Nat → α) : List α := table2 A E f
 /-- `next_done` before the repair: stacked with `dim=1` to `(E, A)`, then `reshape(1, -1)` -/
 def ippoNextDoneCols0 {α} (A E : Nat) (f : Nat → Nat → α) : List α := table2 E A (fun e a => f a e)
 
+/-! ### from a training row back to the sample; minibatches -/
+
+/-- the `(t, e)` whose entry `ppoFlatten` puts in row `row` (inverse of `ppoFlat`) -/
+def ppoUnflat (T row : Nat) : Nat × Nat := (row % T, row / T)
+
+/-- the `(a, t, e)` whose entry `ippoObsFlatten` puts in row `row` (inverse of `ippoObsFlat`) -/
+def ippoUnflat (T E row : Nat) : Nat × Nat × Nat := (row / (T * E), row / E % T, row % E)
+
+/-- `get_experiences_samples`: `x[minibatch_indices]` — entry `j` is row `idx[j]` of `xs`
+    (`none`: torch raises IndexError) -/
+def gather {α} (idx : List Nat) (xs : List α) : List (Option α) := idx.map (fun i => xs[i]?)
+
 end GAE
 
 /-! ### line protocol -/
@@ -239,6 +254,16 @@ def step (s : IOState) : List String → IOState × String
     match dims3 ws with
     | some (A, T, E) => (s, " ".intercalate (ippoAdvFlatten0 A T E tag3))
     | none => (s, "bad-op")
+  | "ppobatch" :: t :: e :: ws =>            -- T E idx…  : the minibatch `x[idx]` of the flattened rollout
+    match dims2 [t, e], allSome (ws.map parseNat?) with
+    | some (T, E), some idx =>
+      (s, " ".intercalate ((gather idx (ppoFlatten T E tag2)).map (fun o => o.getD "oob")))
+    | _, _ => (s, "bad-op")
+  | "ippobatch" :: a :: t :: e :: ws =>      -- A T E idx…
+    match dims3 [a, t, e], allSome (ws.map parseNat?) with
+    | some (A, T, E), some idx =>
+      (s, " ".intercalate ((gather idx (ippoAdvFlatten A T E tag3)).map (fun o => o.getD "oob")))
+    | _, _ => (s, "bad-op")
   | "ippocols" :: ws =>                      -- A E
     match dims2 ws with
     | some (A, E) => (s, " ".intercalate (ippoCols A E tag2))
